@@ -412,3 +412,277 @@ Theorem normal_form_wf fuel d left d' : wf d -> normal_form fuel d left = Ok d' 
 Proof.
   intros Hwf H. destruct (nf_loop_wf _ _ _ _ _ Hwf H) as [W (?&?&_)]. auto.
 Qed.
+
+(* ---------------------------------------------------------------- the layers of an exchange *)
+Lemma splice_val d i L0 L1 l1' l0' :
+  wf d ->
+  nth_error (la_ls (dlayers d)) i = Some L0 ->
+  nth_error (la_ls (dlayers d)) (S i) = Some L1 ->
+  ldom l1' = ldom L0 -> lcod l1' = ldom l0' -> lcod l0' = lcod L1 ->
+  (do a1 <- la_then (la_slice (dlayers d) None (Some (Z.of_nat i))) (la_of l1');
+   do a2 <- la_then a1 (la_of l0');
+   la_then a2 (la_slice (dlayers d) (Some (Z.of_nat i + 2)) None)) =
+  Ok (LA (la_dom (dlayers d)) (la_cod (dlayers d))
+         (firstn i (la_ls (dlayers d)) ++ [l1'; l0'] ++ skipn (2 + i) (la_ls (dlayers d)))).
+Proof.
+  intros (W1 & W2 & W3 & W4 & W5) E0 E1 H1 H2 H3.
+  assert (Hlen : (2 + i <= length (la_ls (dlayers d)))%nat).
+  { assert (S i < length (la_ls (dlayers d)))%nat by (apply nth_error_Some; rewrite E1; discriminate). lia. }
+  destruct (type_at_nth _ _ _ _ _ W3 E0) as [T0 _].
+  destruct (type_at_nth _ _ _ _ _ W3 E1) as [_ T1].
+  rewrite la_slice_prefix by (auto; lia).
+  replace (Z.of_nat i + 2) with (Z.of_nat (2 + i)) by lia.
+  rewrite la_slice_suffix by (auto; lia).
+  rewrite la_then_eq by (cbn [la_cod la_dom la_of]; rewrite T0; auto). cbn [bind la_dom la_cod la_ls la_of].
+  rewrite la_then_eq by (cbn [la_cod la_dom la_of]; auto). cbn [bind la_dom la_cod la_ls].
+  change (2 + i)%nat with (S (S i)) in *.
+  rewrite la_then_eq by (cbn [la_cod la_dom]; rewrite T1; auto).
+  cbn [la_dom la_cod la_ls]. now rewrite <- !app_assoc.
+Qed.
+
+(* Full description of an adjacent exchange: which two layers it acts on, how their
+   wires are related, and the two layers that replace them. *)
+Theorem interchange_adj_inv d i left d' :
+  wf d -> interchange_adj d i left = Ok d' ->
+  exists left0 box0 right0 left1 box1 right1 mid,
+    nth_error (la_ls (dlayers d)) i = Some (left0, box0, right0) /\
+    nth_error (la_ls (dlayers d)) (S i) = Some (left1, box1, right1) /\
+    ddom d' = ddom d /\
+    ((left1 = left0 ++ bcod box0 ++ mid /\ right0 = mid ++ bdom box1 ++ right1 /\
+      la_ls (dlayers d') = firstn i (la_ls (dlayers d)) ++
+        [(left0 ++ bdom box0 ++ mid, box1, right1); (left0, box0, mid ++ bcod box1 ++ right1)] ++
+        skipn (2 + i) (la_ls (dlayers d)))
+     \/
+     (left0 = left1 ++ bdom box1 ++ mid /\ right1 = mid ++ bcod box0 ++ right0 /\
+      la_ls (dlayers d') = firstn i (la_ls (dlayers d)) ++
+        [(left1, box1, mid ++ bdom box0 ++ right0); (left1 ++ bcod box1 ++ mid, box0, right0)] ++
+        skipn (2 + i) (la_ls (dlayers d)))).
+Proof.
+  intros Hwf H. pose proof Hwf as (W1 & W2 & W3 & W4 & W5). unfold interchange_adj in H.
+  destruct (nth_error (la_ls (dlayers d)) i) as [[[left0 box0] right0]|] eqn:E0; try discriminate.
+  destruct (nth_error (la_ls (dlayers d)) (S i)) as [[[left1 box1] right1]|] eqn:E1; try discriminate.
+  destruct (nth_error (doffs d) i) as [off0|] eqn:O0; try discriminate.
+  destruct (nth_error (doffs d) (S i)) as [off1|] eqn:O1; try discriminate.
+  assert (Hoff0 : off0 = len left0).
+  { rewrite W5 in O0. rewrite (nth_error_map_some _ _ _ _ E0) in O0. inversion O0; reflexivity. }
+  assert (Hoff1 : off1 = len left1).
+  { rewrite W5 in O1. rewrite (nth_error_map_some _ _ _ _ E1) in O1. inversion O1; reflexivity. }
+  destruct (type_at_nth _ _ _ _ _ W3 E0) as [_ T0].
+  destruct (type_at_nth _ _ _ _ _ W3 E1) as [T1 _].
+  assert (Hmid : left0 ++ bcod box0 ++ right0 = left1 ++ bdom box1 ++ right1).
+  { rewrite T0 in T1. exact T1. }
+  cbv zeta in H. rewrite !py_slice_suffix in H by apply len_nonneg. rewrite !to_nat_len in H.
+  exists left0, box0, right0, left1, box1, right1.
+  assert (CL : off0 + len (bcod box0) <= off1 ->
+     left1 = left0 ++ bcod box0 ++ skipn (length (left0 ++ bcod box0)) left1 /\
+     right0 = skipn (length (left0 ++ bcod box0)) left1 ++ bdom box1 ++ right1).
+  { intros Hge. apply (app_overlap left1 (bdom box1) right1 left0 (bcod box0) right0 (eq_sym Hmid)).
+    unfold len in *; lia. }
+  assert (CR : off1 + len (bdom box1) <= off0 ->
+     left0 = left1 ++ bdom box1 ++ skipn (length (left1 ++ bdom box1)) left0 /\
+     right1 = skipn (length (left1 ++ bdom box1)) left0 ++ bcod box0 ++ right0).
+  { intros Hge. apply (app_overlap left0 (bcod box0) right0 left1 (bdom box1) right1 Hmid).
+    unfold len in *; lia. }
+  assert (DoL : off0 + len (bcod box0) <= off1 -> forall o0' o1',
+    (do a1 <- la_then (la_slice (dlayers d) None (Some (Z.of_nat i)))
+               (la_of (left0 ++ bdom box0 ++ skipn (length (left0 ++ bcod box0)) left1, box1, right1));
+     do a2 <- la_then a1 (la_of (left0, box0, skipn (length (left0 ++ bcod box0)) left1 ++ bcod box1 ++ right1));
+     do a3 <- la_then a2 (la_slice (dlayers d) (Some (Z.of_nat i + 2)) None);
+     Ok (D (ddom d) (dcod d) (firstn i (dboxes d) ++ [box1; box0] ++ skipn (2 + i) (dboxes d))
+            (firstn i (doffs d) ++ [o1'; o0'] ++ skipn (2 + i) (doffs d)) a3)) = Ok d' ->
+    ddom d' = ddom d /\
+    la_ls (dlayers d') = firstn i (la_ls (dlayers d)) ++
+        [(left0 ++ bdom box0 ++ skipn (length (left0 ++ bcod box0)) left1, box1, right1);
+         (left0, box0, skipn (length (left0 ++ bcod box0)) left1 ++ bcod box1 ++ right1)] ++
+        skipn (2 + i) (la_ls (dlayers d))).
+  { intros Hge o0' o1' Hrun. destruct (CL Hge) as [HA HB].
+    set (mid := skipn (length (left0 ++ bcod box0)) left1) in *.
+    rewrite (bind3 _ _ _ _ _ (splice_val d i _ _ (left0 ++ bdom box0 ++ mid, box1, right1)
+               (left0, box0, mid ++ bcod box1 ++ right1) Hwf E0 E1
+               ltac:(unfold ldom, lleft, lbox, lright; cbn [fst snd]; rewrite HB, <- !app_assoc; reflexivity)
+               ltac:(unfold ldom, lcod, lleft, lbox, lright; cbn [fst snd]; rewrite <- !app_assoc; reflexivity)
+               ltac:(unfold lcod, lleft, lbox, lright; cbn [fst snd]; rewrite HA at 1; rewrite <- !app_assoc; reflexivity)))
+      in Hrun.
+    inversion Hrun; subst d'. cbn. auto. }
+  assert (DoR : off1 + len (bdom box1) <= off0 -> forall o0' o1',
+    (do a1 <- la_then (la_slice (dlayers d) None (Some (Z.of_nat i)))
+               (la_of (left1, box1, skipn (length (left1 ++ bdom box1)) left0 ++ bdom box0 ++ right0));
+     do a2 <- la_then a1 (la_of (left1 ++ bcod box1 ++ skipn (length (left1 ++ bdom box1)) left0, box0, right0));
+     do a3 <- la_then a2 (la_slice (dlayers d) (Some (Z.of_nat i + 2)) None);
+     Ok (D (ddom d) (dcod d) (firstn i (dboxes d) ++ [box1; box0] ++ skipn (2 + i) (dboxes d))
+            (firstn i (doffs d) ++ [o1'; o0'] ++ skipn (2 + i) (doffs d)) a3)) = Ok d' ->
+    ddom d' = ddom d /\
+    la_ls (dlayers d') = firstn i (la_ls (dlayers d)) ++
+        [(left1, box1, skipn (length (left1 ++ bdom box1)) left0 ++ bdom box0 ++ right0);
+         (left1 ++ bcod box1 ++ skipn (length (left1 ++ bdom box1)) left0, box0, right0)] ++
+        skipn (2 + i) (la_ls (dlayers d))).
+  { intros Hge o0' o1' Hrun. destruct (CR Hge) as [HA HB].
+    set (mid := skipn (length (left1 ++ bdom box1)) left0) in *.
+    rewrite (bind3 _ _ _ _ _ (splice_val d i _ _ (left1, box1, mid ++ bdom box0 ++ right0)
+               (left1 ++ bcod box1 ++ mid, box0, right0) Hwf E0 E1
+               ltac:(unfold ldom, lleft, lbox, lright; cbn [fst snd]; rewrite HA at 1; rewrite <- !app_assoc; reflexivity)
+               ltac:(unfold ldom, lcod, lleft, lbox, lright; cbn [fst snd]; rewrite <- !app_assoc; reflexivity)
+               ltac:(unfold lcod, lleft, lbox, lright; cbn [fst snd]; rewrite HB, <- !app_assoc; reflexivity)))
+      in Hrun.
+    inversion Hrun; subst d'. cbn. auto. }
+  destruct (left && (off0 + len (bcod box0) <=? off1)) eqn:C1.
+  { apply andb_true_iff in C1. destruct C1 as [_ C1]. apply Z.leb_le in C1.
+    exists (skipn (length (left0 ++ bcod box0)) left1).
+    destruct (DoL C1 _ _ H) as [Hd Hl]. destruct (CL C1) as [HA HB].
+    split; [reflexivity|]. split; [reflexivity|]. split; [exact Hd|]. left. auto. }
+  destruct (off1 + len (bdom box1) <=? off0) eqn:C2.
+  { apply Z.leb_le in C2.
+    exists (skipn (length (left1 ++ bdom box1)) left0).
+    destruct (DoR C2 _ _ H) as [Hd Hl]. destruct (CR C2) as [HA HB].
+    split; [reflexivity|]. split; [reflexivity|]. split; [exact Hd|]. right. auto. }
+  destruct (off0 + len (bcod box0) <=? off1) eqn:C3; [|discriminate].
+  { apply Z.leb_le in C3.
+    exists (skipn (length (left0 ++ bcod box0)) left1).
+    destruct (DoL C3 _ _ H) as [Hd Hl]. destruct (CL C3) as [HA HB].
+    split; [reflexivity|]. split; [reflexivity|]. split; [exact Hd|]. left. auto. }
+Qed.
+
+(* ---------------------------------------------------------------- where the boxes go *)
+(* exchanging positions i, i+1, n times while following the moving element upwards *)
+Fixpoint bubble_up {A} (l : list A) (i n : nat) : list A :=
+  match n with
+  | O => l
+  | S n' =>
+      match nth_error l i, nth_error l (S i) with
+      | Some x, Some y => bubble_up (firstn i l ++ [y; x] ++ skipn (2 + i) l) (S i) n'
+      | _, _ => l
+      end
+  end.
+
+Fixpoint bubble_down {A} (l : list A) (i n : nat) : list A :=
+  match n with
+  | O => l
+  | S n' =>
+      match nth_error l (i - 1), nth_error l (S (i - 1)) with
+      | Some x, Some y => bubble_down (firstn (i - 1) l ++ [y; x] ++ skipn (2 + (i - 1)) l) (i - 1) n'
+      | _, _ => l
+      end
+  end.
+
+Lemma interchange_adj_boxes d i left d' : wf d -> interchange_adj d i left = Ok d' ->
+  exists b0 b1, nth_error (dboxes d) i = Some b0 /\ nth_error (dboxes d) (S i) = Some b1 /\
+    dboxes d' = firstn i (dboxes d) ++ [b1; b0] ++ skipn (2 + i) (dboxes d).
+Proof.
+  intros Hwf H. destruct (interchange_adj_spec d i left d' Hwf H)
+    as (_ & _ & _ & b0 & b1 & o0 & o1 & o0' & o1' & B0 & B1 & _ & _ & Hb & _). eauto.
+Qed.
+
+Lemma interchange_up_boxes n : forall d i left d', wf d -> interchange_up d i n left = Ok d' ->
+  dboxes d' = bubble_up (dboxes d) i n.
+Proof.
+  induction n as [|n IH]; cbn [interchange_up bubble_up]; intros d i left d' Hwf H.
+  - inversion H; reflexivity.
+  - destruct (interchange_adj d i left) as [d1|] eqn:E; [|discriminate]. cbn [bind] in H.
+    destruct (interchange_adj_boxes _ _ _ _ Hwf E) as (b0 & b1 & B0 & B1 & Hb).
+    destruct (interchange_adj_shape _ _ _ _ Hwf E) as [W1 _].
+    rewrite B0, B1, <- Hb. eapply IH; eauto.
+Qed.
+
+Lemma interchange_down_boxes n : forall d i left d', wf d -> interchange_down d i n left = Ok d' ->
+  dboxes d' = bubble_down (dboxes d) i n.
+Proof.
+  induction n as [|n IH]; cbn [interchange_down bubble_down]; intros d i left d' Hwf H.
+  - inversion H; reflexivity.
+  - destruct (interchange_adj d (i - 1) left) as [d1|] eqn:E; [|discriminate]. cbn [bind] in H.
+    destruct (interchange_adj_boxes _ _ _ _ Hwf E) as (b0 & b1 & B0 & B1 & Hb).
+    destruct (interchange_adj_shape _ _ _ _ Hwf E) as [W1 _].
+    rewrite B0, B1, <- Hb. eapply IH; eauto.
+Qed.
+
+Lemma skipn_skipn' {A} (a b : nat) (l : list A) : skipn a (skipn b l) = skipn (b + a) l.
+Proof.
+  revert l. induction b as [|b IH]; intros l; cbn [skipn Nat.add]; [reflexivity|].
+  destruct l as [|x l]; [now rewrite skipn_nil|]. apply IH.
+Qed.
+
+(* closed form: the element at i ends n places later, the n elements it passed
+   move one place earlier, everything else stays *)
+Lemma bubble_up_closed {A} n : forall (l : list A) i x, nth_error l i = Some x -> (i + n < length l)%nat ->
+  bubble_up l i n = firstn i l ++ firstn n (skipn (S i) l) ++ [x] ++ skipn (S i + n) l.
+Proof.
+  induction n as [|n IH]; intros l i x Hx Hlen; cbn [bubble_up].
+  - cbn [firstn app]. rewrite Nat.add_0_r.
+    rewrite <- (firstn_skipn i l) at 1. f_equal.
+    clear Hlen. revert i Hx. induction l as [|a l IHl]; intros [|i] Hx; cbn in *; try discriminate.
+    + inversion Hx; reflexivity.
+    + apply IHl; auto.
+  - destruct (nth_error l (S i)) as [y|] eqn:Hy.
+    2: { apply nth_error_None in Hy. lia. }
+    rewrite Hx.
+    pose proof (nth_error_split3 _ _ _ _ Hx Hy) as SL.
+    set (l' := firstn i l ++ [y; x] ++ skipn (2 + i) l).
+    assert (Hl' : length l' = length l).
+    { unfold l'. rewrite SL at 3. rewrite !app_length. reflexivity. }
+    assert (Hi : length (firstn i l) = i) by (rewrite firstn_length; lia).
+    assert (Hx' : nth_error l' (S i) = Some x).
+    { unfold l'. rewrite nth_error_app2 by lia. rewrite Hi. replace (S i - i)%nat with 1%nat by lia. reflexivity. }
+    rewrite (IH l' (S i) x Hx') by lia.
+    assert (F1 : firstn (S i) l' = firstn i l ++ [y]).
+    { unfold l'. rewrite firstn_app, Hi. replace (S i - i)%nat with 1%nat by lia.
+      rewrite firstn_all2 by lia. reflexivity. }
+    assert (S1 : forall k, skipn (S (S i) + k) l' = skipn (S (S i) + k) l).
+    { intros k. unfold l'. rewrite skipn_app, Hi. rewrite skipn_all2 by lia. cbn [app].
+      replace (S (S i) + k - i)%nat with (2 + k)%nat by lia. change (2 + k)%nat with (S (S k)). cbn [skipn].
+      rewrite skipn_skipn'. try (f_equal; lia). }
+    rewrite F1. replace (S (S i)) with (S (S i) + 0)%nat at 1 by lia. rewrite (S1 0%nat).
+    replace (S (S i) + 0)%nat with (2 + i)%nat by lia.
+    replace (S (S i) + n)%nat with (S (S i) + n)%nat by lia. rewrite (S1 n).
+    replace (S i + S n)%nat with (S (S i) + n)%nat by lia.
+    rewrite <- !app_assoc. f_equal. cbn [app].
+    (* firstn (S n) (skipn (S i) l) = y :: firstn n (skipn (2 + i) l) *)
+    assert (Hsk : skipn (S i) l = y :: skipn (2 + i) l).
+    { rewrite SL at 1. rewrite skipn_app, Hi. rewrite skipn_all2 by lia. cbn [app].
+      replace (S i - i)%nat with 1%nat by lia. reflexivity. }
+    rewrite Hsk. cbn [firstn app]. reflexivity.
+Qed.
+
+Theorem interchange_up_moves_box d i n left d' x : wf d -> interchange_up d i n left = Ok d' ->
+  nth_error (dboxes d) i = Some x -> (i + n < length (dboxes d))%nat ->
+  dboxes d' = firstn i (dboxes d) ++ firstn n (skipn (S i) (dboxes d)) ++ [x] ++ skipn (S i + n) (dboxes d).
+Proof.
+  intros Hwf H Hx Hlen. rewrite (interchange_up_boxes _ _ _ _ _ Hwf H). now apply bubble_up_closed.
+Qed.
+
+(* ---------------------------------------------------------------- refusal on the way *)
+(* a move is refused exactly when, at some step, the moving box and the next box
+   on its way share a wire at the level where they meet *)
+Theorem interchange_up_error n : forall d i left e, wf d -> (i + n < length (dboxes d))%nat ->
+  interchange_up d i n left = Err e ->
+  e = InterchangerError /\
+  exists k dk, (k < n)%nat /\ interchange_up d i k left = Ok dk /\ ~ disjoint_at dk (i + k).
+Proof.
+  induction n as [|n IH]; cbn [interchange_up]; intros d i left e Hwf Hlen H; [discriminate|].
+  pose proof (interchange_adj_total d i left Hwf ltac:(lia)) as T.
+  destruct (interchange_adj d i left) as [d1|e1] eqn:E; cbn [bind] in H.
+  - destruct (interchange_adj_shape _ _ _ _ Hwf E) as [W1 (_ & _ & L1)].
+    destruct (IH d1 (S i) left e W1 ltac:(lia) H) as (He & k & dk & Hk & Hrun & Hnd).
+    split; [exact He|]. exists (S k), dk. split; [lia|]. split.
+    + cbn [interchange_up]. rewrite E. exact Hrun.
+    + replace (i + S k)%nat with (S i + k)%nat by lia. exact Hnd.
+  - inversion H; subst e1. destruct T as [-> Hnd]. split; [reflexivity|].
+    exists 0%nat, d. split; [lia|]. split; [reflexivity|]. now rewrite Nat.add_0_r.
+Qed.
+
+Theorem interchange_up_ok_disjoint n : forall d i left d', wf d ->
+  interchange_up d i n left = Ok d' ->
+  forall k, (k < n)%nat -> exists dk, interchange_up d i k left = Ok dk /\ disjoint_at dk (i + k).
+Proof.
+  induction n as [|n IH]; cbn [interchange_up]; intros d i left d' Hwf H k Hk; [lia|].
+  destruct (interchange_adj d i left) as [d1|] eqn:E; [|discriminate]. cbn [bind] in H.
+  destruct (interchange_adj_shape _ _ _ _ Hwf E) as [W1 (_ & _ & L1)].
+  destruct k as [|k].
+  - exists d. split; [reflexivity|]. rewrite Nat.add_0_r.
+    assert (Hi : (S i < length (dboxes d))%nat).
+    { destruct (interchange_adj_boxes _ _ _ _ Hwf E) as (b0 & b1 & _ & B1 & _).
+      apply nth_error_Some. rewrite B1. discriminate. }
+    pose proof (interchange_adj_total d i left Hwf Hi) as T. rewrite E in T. exact T.
+  - destruct (IH d1 (S i) left d' W1 H k ltac:(lia)) as (dk & Hrun & Hd).
+    exists dk. split.
+    + cbn [interchange_up]. rewrite E. exact Hrun.
+    + replace (i + S k)%nat with (S i + k)%nat by lia. exact Hd.
+Qed.
